@@ -72,17 +72,19 @@ def ordAddElement : List Nat → Nat → List Nat
     else if h = e then h :: t                         -- addel(=)
     else e :: h :: t                                  -- addel(>)
 
+/-- put `a` in front of the first component. -/
+def consFst {α β} (a : α) (p : List α × β) : List α × β := (a :: p.1, p.2)
+/-- put `b` in front of both components. -/
+def consBoth {α} (b : α) (p : List α × List α) : List α × List α := (b :: p.1, b :: p.2)
+
 /-- `ord_union/4`: the union and the elements of the second set that are new. -/
 def ordUnionNew : List Nat → List Nat → List Nat × List Nat
   | [], s2 => (s2, s2)
   | l1, [] => (l1, [])
   | a :: as, b :: bs =>
-    if a < b then
-      let r := ordUnionNew as (b :: bs); (a :: r.1, r.2)
-    else if a = b then
-      let r := ordUnionNew as bs; (a :: r.1, r.2)
-    else
-      let r := ordUnionNew (a :: as) bs; (b :: r.1, b :: r.2)
+    if a < b then consFst a (ordUnionNew as (b :: bs))        -- <
+    else if a = b then consFst a (ordUnionNew as bs)          -- =
+    else consBoth b (ordUnionNew (a :: as) bs)                -- >
 
 /-! ## ugraphs.pl -/
 
@@ -99,17 +101,14 @@ def pToSVertices : List (Nat × Nat) → List Nat
 /-- `p_to_s_group/4`: the neighbours of `v2` at the front of the edge set, and the rest. -/
 def pToSGroup1 : List (Nat × Nat) → Nat → List Nat × List (Nat × Nat)
   | (v1, x) :: es, v2 =>
-    if v1 = v2 then
-      let r := pToSGroup1 es v2; (x :: r.1, r.2)
+    if v1 = v2 then consFst x (pToSGroup1 es v2)
     else ([], (v1, x) :: es)
   | [], _ => ([], [])
 
 /-- `p_to_s_group/3`. -/
 def pToSGroup : List Nat → List (Nat × Nat) → Graph
   | [], _ => []
-  | v :: vs, es =>
-    let r := pToSGroup1 es v
-    (v, r.1) :: pToSGroup vs r.2
+  | v :: vs, es => (v, (pToSGroup1 es v).1) :: pToSGroup vs (pToSGroup1 es v).2
 
 /-- `vertices_edges_to_ugraph/3`. -/
 def verticesEdgesToUgraph (vs : List Nat) (es : List (Nat × Nat)) : Graph :=
@@ -280,9 +279,8 @@ def reachableLoop : Nat → List Nat → Graph → List Nat → Option (List Nat
   | fuel + 1, n :: ns, g, rs0 =>
     match neighbours n g with
     | none => none
-    | some nei =>
-      let r := ordUnionNew rs0 nei
-      reachableLoop fuel (ns ++ r.2) g r.1
+    | some nei =>                          -- ord_union(Rs0, Nei, Rs1, D), append(Ns, D, Nsi)
+      reachableLoop fuel (ns ++ (ordUnionNew rs0 nei).2) g (ordUnionNew rs0 nei).1
 
 /-- `reachable/3`. -/
 def reachable (n : Nat) (g : Graph) : Option (List Nat) :=
